@@ -508,9 +508,17 @@ class Analyzer:
             if isinstance(cell.value, CollV):
                 inv.append(_count(cell.value.slots) == 0)
         if inv:
-            v2 = discharge("invariant_restored", base + [A.exec.alive], Not(z3.And(*inv)), self.timeout_ms)
+            # at the end of every event that did not fault - including one the code left early with `return`
+            v2 = discharge("invariant_restored", base + [Or(A.exec.alive, A.exec.returned)], Not(z3.And(*inv)), self.timeout_ms)
             v2.selfcomp = (A, B)
             V.append(v2)
+            if len(ev.store) >= 2:
+                # the same with the presence of every collection symbolic: an event that lacks a product either ends the job
+                # (fault) or leaves no entries behind for the next one
+                base_np = A.base(all_present=False) + [c for c in B.base(all_present=False)]
+                v3 = discharge("invariant_restored_with_absent_collections", base_np + [Or(A.exec.alive, A.exec.returned)], Not(z3.And(*inv)), self.timeout_ms)
+                v3.selfcomp = (A, B)
+                V.append(v3)
         r.solver_seconds = sum(x.seconds for x in V)
         for v in V:
             if v.status == "cex" and v.name in ("all_events", "fp_build_flags"):
@@ -776,6 +784,11 @@ class Analyzer:
             shutil.rmtree(wd, ignore_errors=True)
             return
         abstracted = bool(enc.ctx.rf_terms) or any(str(k[0]).startswith("fn:") for k in enc.event.ufs)
+        if not rp["encoder_ok"] and abstracted and rp["mismatch"] is True and "fault prediction" not in rp["encoder_text"]:
+            # the model's values of ABSTRACTED functions (sqrt, pow, float rounding) are not the machine's, but on this concrete
+            # event the real compiled package and the concrete reference evaluation disagree: that stands on its own
+            rp["encoder_ok"] = True
+            rp["text"] += " (found through a model whose abstracted function values differ from the machine's; the replay decides)"
         if not rp["encoder_ok"] and abstracted and "fault prediction" not in rp["encoder_text"] and getattr(v, "tries", 0) < 3 \
                 and getattr(v, "query", None) is not None:
             # binary32 rounding is an uninterpreted function constrained by relative-error axioms (a model may round a float
